@@ -45,8 +45,14 @@ def scipy_G():
     return None, 'scipy source not found'
 
 
+EXPLANATION += ' R17.10 no integer-literal power (negative, or >= 3) is taken of a quantity that stays an integer when the arguments are integers (numba types arithmetic by its arguments: 0 for a negative power, silent int64 wrap-around for a large one).'
+TECHNIQUE += '; syntactic type flow in numba-compiled kernels (integer-literal powers of integer-typed arguments)'
+
 def run(chk):
     repo = Repo(chk.repo)
+    # R17.10: integer arguments are values like any other; numba keeps them integers until they meet a float (an integer-literal power is taken first)
+    from .common import int_power_lint
+    int_power_lint(chk, repo, 'R17.10', ['TidalPy/utilities/conversions/conversions.py'])
     mp = repo.by_path('TidalPy/utilities/conversions/conversions.py')
     mx = repo.by_path('TidalPy/utilities/conversions/conversions_x.pyx')
     it = Interp(repo)
